@@ -8,6 +8,8 @@ Waiting is observed through the wait primitives only.
 """
 import itertools
 
+import asyncio
+
 from .. import common
 from ..cworld import ClientWorld, SeqEvent
 from ..par import pmap
@@ -444,6 +446,133 @@ def words(maxlen):
     return out
 
 
+def bystander_case(is_async, who):
+    """Two clients in one process lose their transports.  The application
+    calls shutdown() (who='shutdown') or disconnect() (who='disconnect') on
+    client X while client Y sits in its first back-off wait: Y's effort is
+    none of X's business and must go on to reconnect."""
+    v = []
+    tag = f'{"Async" if is_async else ""}Client X.{who}() during Y\'s ' \
+          f'back-off'
+    import socketio.client as cmod
+    import socketio.async_client as amod
+    from socketio import base_client
+    mod = amod if is_async else cmod
+    saved = mod.random
+    mod.random = FakeRandom(0.5)
+    kw = dict(reconnection=True, reconnection_delay=1,
+              reconnection_delay_max=5, randomization_factor=0)
+    held = []
+    if is_async:
+        from ..vloop import VLoop, install
+        loop = install(VLoop())
+        wx = ClientWorld(is_async=True, loop=loop, **kw)
+        wy = ClientWorld(is_async=True, loop=loop, **kw)
+    else:
+        class Held:
+            def __init__(self, target, args):
+                self.target, self.args = target, args
+
+            def join(self, timeout=None):
+                pass
+
+            def is_alive(self):
+                return True
+        def factory(target, *a, **k):
+            # X's reconnection effort stays pending; everything else
+            # (message tasks) runs as usual
+            if getattr(target, '__name__', '') == '_handle_reconnect':
+                held.append(Held(target, a))
+                return held[-1]
+            from ..worlds import DeferredTask
+            t = DeferredTask(wx, target, a, k)
+            wx.tasks.append(t)
+            return t
+        wx = ClientWorld(is_async=False, task_factory=factory, **kw)
+        wy = ClientWorld(is_async=False, **kw)
+    try:
+        for w in (wx, wy):
+            r = w.connect(script=[['0{"sid":"S"}']], namespaces=['/'])
+            if r[0] != 'ok':
+                raise common.HarnessError(f'bystander set-up: {r}')
+            w.take_outbox()
+        state = {'done': False}
+
+        def act():
+            state['done'] = True
+            return wx.c.shutdown() if who == 'shutdown' else \
+                wx.c.disconnect()
+        if is_async:
+            # X loses its transport first (its effort starts its back-off),
+            # then Y; the application acts on X at Y's first back-off wait
+            real_wait_for = asyncio.wait_for
+
+            async def wait_for(fut, timeout):
+                ev = getattr(wy.c, '_reconnect_abort', None)
+                is_y = ev is not None and getattr(
+                    fut, 'cr_frame', None) is not None and \
+                    fut.cr_frame.f_locals.get('self') is ev
+                if is_y and not state['done']:
+                    loop.create_task(act())
+
+                    async def server():
+                        from engineio import packet as eio_packet
+                        for _ in range(50):
+                            await asyncio.sleep(0.5)
+                            if wy.eio.state == 'connected' and \
+                                    not wy.c.connected:
+                                await wy.eio._receive_packet(
+                                    eio_packet.Packet(eio_packet.MESSAGE,
+                                                      '0{"sid":"S2"}'))
+                                return
+                    loop.create_task(server())
+                return await real_wait_for(fut, timeout)
+            asyncio.wait_for = wait_for
+            try:
+                loop.time_limit = loop.time() + 0.5   # no back-off expires
+                wx.lose()
+                wy.lose()
+                loop.time_limit = loop.time() + 30
+                loop.run()
+            finally:
+                asyncio.wait_for = real_wait_for
+        else:
+            wx.lose()                 # X's effort is pending (task held)
+
+            def on_wait(ev, timeout):
+                if ev is getattr(wy.c, '_reconnect_abort', None):
+                    if not state['done']:
+                        act()
+                    wy.wait_script = [lambda: wy.deliver_raw(
+                        '0{"sid":"S2"}')]
+                    return
+                if wy.wait_script:
+                    wy.wait_script.pop(0)()
+                    wy.run_tasks()
+            wy.on_wait = on_wait
+            wy.lose()
+        if not state['done']:
+            raise common.HarnessError('bystander: Y never reached a '
+                                      'back-off wait')
+        if not wy.c.connected or len(wy.connect_calls) != 2:
+            v.append(('C10/bystander-aborted', f'{tag}: Y made '
+                      f'{len(wy.connect_calls) - 1} reconnection attempt(s) '
+                      f'and is {"" if wy.c.connected else "not "}connected '
+                      f'(expected: one attempt, reconnected)'))
+    finally:
+        mod.random = saved
+        wx.close()
+        if not is_async:
+            wy.close()
+        del base_client.reconnecting_clients[:]
+    return v
+
+
+def replay_bystander(is_async, who):
+    common.setup_imports()
+    return bystander_case(is_async, who)
+
+
 def job(args):
     is_async, cases = args
     common.setup_imports()
@@ -526,6 +655,17 @@ def run(tier, seed, result):
         seen = set()
         for key, msg, wit in viols:
             result.violation(key, msg, wit)
+    for is_async in (False, True):
+        for who in ('shutdown', 'disconnect'):
+            if who == 'shutdown' and not is_async:
+                # in the sequential world X's effort cannot sit in its own
+                # back-off while Y's does
+                continue
+            total += 1
+            for key, msg in bystander_case(is_async, who):
+                result.violation(key, msg, {'replay': {
+                    'module': 'mc.checks.c10', 'func': 'replay_bystander',
+                    'args': [is_async, who]}})
     result.add('evaluations', total)
     result.add('distinct_nontrivial', len(cases) * 2 - 16)
     result.add('fault_words', len(words(maxlen)))
